@@ -23,8 +23,8 @@ def make_case(rng, i, tier):
     nv = rng.choice(VALUES)
     if rng.random() < 0.15:
         nv = sorted(rng.sample(range(1, 60), rng.randint(1, 5)), reverse=rng.random() < 0.5)
-    style = rng.choice(["random", "chains", "short"])
-    lmax = {"random": 45, "chains": 30, "short": 4}[style]
+    style = rng.choice(["random", "chains", "short", "chords"])
+    lmax = {"random": 45, "chains": 30, "short": 4, "chords": 30}[style]
     notes = gen.wf_notes(rng, rng.randint(1, 9), chans=chans, pitches=pitches, tmax=110, lmin=1, lmax=lmax)
     if style == "chains":
         # back-to-back repeated pitches: chain notes directly after existing ones where free
@@ -36,6 +36,21 @@ def make_case(rng, i, tier):
             if all(s + l2 <= a or s >= b for a, b in busy[(c, p)]):
                 busy[(c, p)].append((s, s + l2))
                 notes.append([c, p, s, l2, 1 + (len(notes) * 11) % 126])
+    if style == "chords":
+        # notes of different pitch sharing onset and end in one channel, some of the pitches struck again soon after
+        notes = []
+        pool = [60, 64, 67, 72]
+        t = 0
+        for _ in range(rng.randint(1, 3)):
+            c = rng.choice(chans)
+            ln = rng.randint(3, 30)
+            ps = rng.sample(pool, rng.randint(2, 3))
+            for pp in ps:
+                notes.append([c, pp, t, ln, 1])
+            gap = rng.choice([0, 1, 2, 5])
+            for pp in rng.sample(ps, rng.randint(1, len(ps))):
+                notes.append([c, pp, t + ln + gap, rng.randint(2, 25), 1])
+            t += ln + gap + 30
     vs = list(range(1, 128))
     rng.shuffle(vs)
     notes = [[c, p, on, ln, vs[j]] for j, (c, p, on, ln, v) in enumerate(notes)]
